@@ -1,7 +1,961 @@
-//! C19 — stub (monitor not built yet)
-use crate::run::{Ctx, Report, Stats};
-pub fn run(_ctx: &Ctx) -> Report {
-    let mut r = Report::new(Stats::default(), "not built");
-    r.inconclusive.push("monitor-not-built".into());
-    r
+//! C19 — meshes return what was stored; interpolation / quadrature exact on (bi)linear data;
+//! 1-D file round trip to the printed precision.
+//!
+//! Two halves:
+//!  * storage half (E-exact / E-model): the real generic `Mesh1D<T,X>` / `Mesh2D<T>` instantiated at
+//!    T in {f64, Rat} (X in {f64, Rat}) is driven in lock-step with a `Vec<Vec<i64>>` model through
+//!    histories of writes (set_nodes_vars, IndexMut whole vector, IndexMut component, apply, assign);
+//!    after EVERY step every read path (get_nodes_vars, Index, cross_section_xnode/ynode,
+//!    var_as_matrix, coord, nodes/xnodes/ynodes, nnodes, nvars) must equal the model exactly.
+//!  * numerical half (f64 only in the library): get_interpolated_vars, trapezium (1-D, 2-D),
+//!    square_trapezium and output()/read() are judged against exact rational models.
+//!    Grids are dyadic (k/2^s, s<=9, spacing >= 2^-9 > 1e-3) and nodal data integers, so the exact
+//!    quadrature values are representable: whenever the generator-side certificate
+//!    (sum of |cell terms| < 2^53 quanta) holds, BIT equality with the exact value is demanded.
+use crate::fl::U;
+use crate::json::J;
+use crate::mon::common::*;
+use crate::rat::Rat;
+use crate::rng::{mix, Rng};
+use crate::run::{catch, par_run, Ctx, Outcome, Report, Stats};
+use ohsl::{Mesh1D, Mesh2D, Number, Vector};
+use std::fmt::{Debug, Display};
+
+const TAG: u64 = 0xC19;
+
+/// interpolation: |got - exact| <= INTERP_TOL_U * u * (|left| + |right|)   (a priori bound ~4)
+const INTERP_TOL_U: f64 = 512.0;
+/// quadrature when the exact value is not certified representable:
+/// |got - exact| <= QUAD_TOL_U * u * sum|cell terms|   (a priori bound ~ ncells+4 <= 125)
+const QUAD_TOL_U: f64 = 16384.0;
+/// policy: a nodal value that is reproduced only up to rounding (not bit-for-bit) is a violation
+/// (own narrow signature `...:last-node-not-bit-exact` / `...:node-not-bit-exact`).
+/// KNOWN on the pinned tree: `get_interpolated_vars(x_last)` evaluates left + ((right-left)/h)*h in the
+/// last cell (every other node is served by the cell to its right with delta_x = 0, hence exactly);
+/// when h is not a power of two this rounds, e.g. nodes [0, 47], data [-3, 0]: returns
+/// -4.440892098500626e-16 instead of the stored 0. A repair such as
+/// `left + (right-left)*(delta_x/h)` makes this monitor silent.
+const NODE_BIT_EXACT_IS_VIOLATION: bool = true;
+/// file round trip: |read - written| <= 1/2 * 10^-p + |written| * 2^-52 (parse/format rounding)
+const FILE_REL_SLACK_LOG2: u32 = 52;
+
+// ------------------------------------------------------------------------------------------------
+// element / coordinate types
+// ------------------------------------------------------------------------------------------------
+pub trait Elem: Copy + Number + PartialEq + Debug + Display + 'static {
+    const NAME: &'static str;
+    fn of(v: i64) -> Self;
+}
+impl Elem for f64 {
+    const NAME: &'static str = "f64";
+    fn of(v: i64) -> f64 { v as f64 }
+}
+impl Elem for Rat {
+    const NAME: &'static str = "Rat";
+    fn of(v: i64) -> Rat { Rat::int(v) }
+}
+
+/// dyadic grid: positions k[i] / 2^s, strictly increasing
+#[derive(Clone, Debug)]
+pub struct Grid { pub k: Vec<i64>, pub s: u32 }
+impl Grid {
+    fn n(&self) -> usize { self.k.len() }
+    fn f(&self, i: usize) -> f64 { self.k[i] as f64 / (1u64 << self.s) as f64 } // exact: |k| < 2^53
+    fn r(&self, i: usize) -> Rat { Rat::new(self.k[i] as i128, 1i128 << self.s) }
+    fn fvec(&self) -> Vec<f64> { (0..self.n()).map(|i| self.f(i)).collect() }
+    fn nonuniform(&self) -> bool {
+        self.n() >= 3 && (1..self.n() - 1).any(|i| self.k[i + 1] - self.k[i] != self.k[1] - self.k[0])
+    }
+    fn show(&self) -> String { format!("{:?}/2^{}", self.k, self.s) }
+    fn hash(&self, mut h: u64) -> u64 {
+        h = hmix(h, self.s as u64);
+        for v in &self.k { h = hmix(h, *v as u64); }
+        h
+    }
+}
+
+pub trait NodeX: Copy + Number + PartialEq + Debug + 'static {
+    const NAME: &'static str;
+    fn at(g: &Grid, i: usize) -> Self;
+}
+impl NodeX for f64 {
+    const NAME: &'static str = "f64";
+    fn at(g: &Grid, i: usize) -> f64 { g.f(i) }
+}
+impl NodeX for Rat {
+    const NAME: &'static str = "Rat";
+    fn at(g: &Grid, i: usize) -> Rat { g.r(i) }
+}
+
+/// non-uniform (for n>=3) dyadic grid with n nodes
+fn gen_grid(rng: &mut Rng, n: usize) -> Grid {
+    let s = rng.below(10) as u32; // 2^-s >= 2^-9 = 0.00195 >= 1e-3
+    let class = rng.below(4);
+    let mut steps: Vec<i64> = (0..n - 1).map(|_| match class {
+        0 => rng.int(1, 3),
+        1 => rng.int(1, 64),
+        2 => 1i64 << rng.below(7),
+        _ => if rng.chance(0.2) { rng.int(100, 256) } else { rng.int(1, 2) },
+    }).collect();
+    if n >= 3 && steps.iter().all(|&d| d == steps[0]) {
+        let j = rng.usize(0, n - 2);
+        steps[j] += rng.int(1, 5);
+    }
+    let mut k = vec![rng.int(-1024, 1024)];
+    for d in steps { let last = *k.last().unwrap(); k.push(last + d); }
+    Grid { k, s }
+}
+
+fn rand_val(rng: &mut Rng, class: u64) -> i64 {
+    match class {
+        0 => rng.int(-9, 9),
+        1 => rng.int(-1000, 1000),
+        2 => rng.int(-1_000_000, 1_000_000),
+        _ => rng.int(-(1 << 30), 1 << 30),
+    }
+}
+
+fn row_eq<T: Elem>(got: &[T], want: &[i64]) -> bool {
+    got.len() == want.len() && got.iter().zip(want).all(|(a, b)| *a == T::of(*b))
+}
+
+/// run a library call; a panic where the property demands success is a violation
+fn call<R>(st: &mut Stats, site: &str, ty: &str, desc: &dyn Fn() -> String, f: impl FnOnce() -> R) -> Option<R> {
+    match catch(f) {
+        Outcome::Ok(r) => Some(r),
+        Outcome::Overflow => { st.count("skipped:rat-overflow"); None }
+        Outcome::Budget => { st.count("skipped:budget"); None }
+        o => {
+            st.violation(&format!("C19:{}:{}:panic", site, ty), format!("{} {}; {}", site, o.describe(), desc()));
+            None
+        }
+    }
+}
+
+fn wrong(st: &mut Stats, site: &str, ty: &str, what: String) {
+    st.violation(&format!("C19:{}:{}:wrong-value", site, ty), what);
+}
+
+// ------------------------------------------------------------------------------------------------
+// 1-D storage half
+// ------------------------------------------------------------------------------------------------
+#[derive(Clone, Debug)]
+enum Op1 {
+    Set { node: usize, vals: Vec<i64> },
+    IdxVec { node: usize, vals: Vec<i64> },
+    IdxComp { node: usize, var: usize, val: i64 },
+    /// every node gets a unique code through write path `path` (0 set, 1 index-vector, 2 index-component)
+    FillCodes { path: u8, base: i64 },
+    /// var := a + b*K at every node (K integer grid coordinate), through write path `path`
+    FillLinear { var: usize, a: i64, b: i64, path: u8 },
+}
+
+pub struct State1 {
+    pub data: Vec<Vec<i64>>,
+    /// Some([a,b]) when var is currently a + b*K at every node
+    pub lin: Vec<Option<[i64; 2]>>,
+    pub hist: Vec<String>,
+}
+
+fn ty1<T: Elem, X: NodeX>() -> String { format!("{}/{}", T::NAME, X::NAME) }
+
+fn write1<T: Elem, X: NodeX>(st: &mut Stats, m: &mut Mesh1D<T, X>, path: u8, node: usize, vals: &[i64], desc: &dyn Fn() -> String) {
+    let ty = ty1::<T, X>();
+    let v: Vec<T> = vals.iter().map(|x| T::of(*x)).collect();
+    match path {
+        0 => { call(st, "mesh1d.set_nodes_vars", &ty, desc, || m.set_nodes_vars(node, Vector::create(v))); }
+        1 => { call(st, "mesh1d.index_mut", &ty, desc, || { m[node] = Vector::create(v); }); }
+        _ => { call(st, "mesh1d.index_mut", &ty, desc, || { for (j, x) in v.iter().enumerate() { m[node][j] = *x; } }); }
+    }
+    st.eval();
+}
+
+/// every read path of a 1-D mesh against the model
+fn check1<T: Elem, X: NodeX>(st: &mut Stats, m: &Mesh1D<T, X>, g: &Grid, nv: usize, s: &State1) {
+    let n = g.n();
+    let ty = ty1::<T, X>();
+    let desc = || format!("Mesh1D<{}> grid={} nvars={} history={:?} model={:?}", ty1::<T, X>(), g.show(), nv, s.hist, s.data);
+    if let Some((nn, nvv)) = call(st, "mesh1d.nnodes", &ty, &desc, || (m.nnodes(), m.nvars())) {
+        st.eval();
+        if nn != n || nvv != nv { wrong(st, "mesh1d.nnodes", &ty, format!("nnodes/nvars = {}/{} expected {}/{}; {}", nn, nvv, n, nv, desc())); return; }
+    } else { return; }
+    if let Some(rows) = call(st, "mesh1d.get_nodes_vars", &ty, &desc, || (0..n).map(|i| m.get_nodes_vars(i).vec).collect::<Vec<Vec<T>>>()) {
+        st.evals_add(n as u64);
+        for i in 0..n {
+            if !row_eq(&rows[i], &s.data[i]) {
+                wrong(st, "mesh1d.get_nodes_vars", &ty, format!("get_nodes_vars({}) = {:?}, stored {:?}; {}", i, rows[i], s.data[i], desc()));
+                break;
+            }
+        }
+    }
+    if let Some(rows) = call(st, "mesh1d.index", &ty, &desc, || (0..n).map(|i| m[i].vec.clone()).collect::<Vec<Vec<T>>>()) {
+        st.evals_add(n as u64);
+        for i in 0..n {
+            if !row_eq(&rows[i], &s.data[i]) {
+                wrong(st, "mesh1d.index", &ty, format!("mesh[{}] = {:?}, stored {:?}; {}", i, rows[i], s.data[i], desc()));
+                break;
+            }
+        }
+    }
+    if let Some((cs, ns)) = call(st, "mesh1d.coord", &ty, &desc, || ((0..n).map(|i| m.coord(i)).collect::<Vec<X>>(), m.nodes().vec)) {
+        st.evals_add(n as u64 + 1);
+        let want: Vec<X> = (0..n).map(|i| X::at(g, i)).collect();
+        if cs != want { wrong(st, "mesh1d.coord", &ty, format!("coord(0..n) = {:?} expected {:?}; {}", cs, want, desc())); }
+        if ns != want { wrong(st, "mesh1d.nodes", &ty, format!("nodes() = {:?} expected {:?}; {}", ns, want, desc())); }
+    }
+}
+
+fn apply_op1<T: Elem, X: NodeX>(st: &mut Stats, m: &mut Mesh1D<T, X>, g: &Grid, nv: usize, s: &mut State1, op: &Op1) {
+    let n = g.n();
+    s.hist.push(format!("{:?}", op));
+    if s.hist.len() > 24 { s.hist.remove(0); }
+    let hist = s.hist.clone();
+    let gs = g.show();
+    let desc = move || format!("Mesh1D<{}> grid={} nvars={} history(last is the failing op)={:?}", ty1::<T, X>(), gs, nv, hist);
+    match op {
+        Op1::Set { node, vals } => { write1(st, m, 0, *node, vals, &desc); s.data[*node] = vals.clone(); s.lin.iter_mut().for_each(|l| *l = None); }
+        Op1::IdxVec { node, vals } => { write1(st, m, 1, *node, vals, &desc); s.data[*node] = vals.clone(); s.lin.iter_mut().for_each(|l| *l = None); }
+        Op1::IdxComp { node, var, val } => {
+            let (node, var, val) = (*node, *var, *val);
+            call(st, "mesh1d.index_mut", &ty1::<T, X>(), &desc, || { m[node][var] = T::of(val); });
+            st.eval();
+            s.data[node][var] = val;
+            s.lin[var] = None;
+        }
+        Op1::FillCodes { path, base } => {
+            for i in 0..n {
+                let vals: Vec<i64> = (0..nv).map(|v| base + (i * 4 + v) as i64).collect();
+                write1(st, m, *path, i, &vals, &desc);
+                s.data[i] = vals;
+            }
+            s.lin.iter_mut().for_each(|l| *l = None);
+        }
+        Op1::FillLinear { var, a, b, path } => {
+            for i in 0..n {
+                let mut vals = s.data[i].clone();
+                vals[*var] = a + b * g.k[i];
+                write1(st, m, *path, i, &vals, &desc);
+                s.data[i] = vals;
+            }
+            s.lin[*var] = Some([*a, *b]);
+        }
+    }
+}
+
+fn random_ops1(rng: &mut Rng, n: usize, nv: usize, nops: usize) -> Vec<Op1> {
+    let class = rng.below(4);
+    let mut ops = vec![];
+    if rng.chance(0.7) { ops.push(Op1::FillCodes { path: rng.below(3) as u8, base: rand_val(rng, class.min(2)) }); }
+    for _ in 0..nops {
+        let node = rng.usize(0, n - 1);
+        let c = if rng.chance(0.15) { rng.below(4) } else { class };
+        ops.push(match rng.below(10) {
+            0..=2 => Op1::Set { node, vals: (0..nv).map(|_| rand_val(rng, c)).collect() },
+            3..=5 => Op1::IdxVec { node, vals: (0..nv).map(|_| rand_val(rng, c)).collect() },
+            6..=8 => Op1::IdxComp { node, var: rng.usize(0, nv - 1), val: rand_val(rng, c) },
+            _ => Op1::FillLinear { var: rng.usize(0, nv - 1), a: rng.int(-50, 50), b: rng.int(-9, 9), path: rng.below(3) as u8 },
+        });
+    }
+    if rng.chance(0.4) {
+        ops.push(Op1::FillLinear { var: rng.usize(0, nv - 1), a: rng.int(-50, 50), b: rng.nzint(9), path: rng.below(3) as u8 });
+    }
+    ops
+}
+
+fn enum_ops1() -> Vec<Op1> {
+    vec![
+        Op1::FillCodes { path: 0, base: 1000 },
+        Op1::FillCodes { path: 1, base: -2000 },
+        Op1::FillCodes { path: 2, base: 3000 },
+    ]
+}
+
+/// lock-step history on a 1-D mesh; `after` sees the live mesh and model at the end
+fn history1<T: Elem, X: NodeX>(
+    st: &mut Stats, rng: &mut Rng, class: &str, g: &Grid, nv: usize, ops: &[Op1],
+    after: &mut dyn FnMut(&mut Stats, &mut Rng, &Mesh1D<T, X>, &State1),
+) {
+    st.next_case();
+    let n = g.n();
+    let ty = ty1::<T, X>();
+    let nodes: Vec<X> = (0..n).map(|i| X::at(g, i)).collect();
+    let gs = g.show();
+    let d0 = || format!("Mesh1D<{}>::new grid={} nvars={}", ty1::<T, X>(), gs, nv);
+    let mut m = match call(st, "mesh1d.new", &ty, &d0, || Mesh1D::<T, X>::new(Vector::create(nodes), nv)) { Some(m) => m, None => return };
+    st.eval();
+    let mut s = State1 { data: vec![vec![0; nv]; n], lin: vec![Some([0, 0]); nv], hist: vec![] };
+    check1(st, &m, g, nv, &s);
+    for op in ops {
+        apply_op1(st, &mut m, g, nv, &mut s, op);
+        check1(st, &m, g, nv, &s);
+    }
+    after(st, rng, &m, &s);
+    st.count(&format!("cases:mesh1d:{}:{}", ty, class));
+    st.set_insert("shapes1d", format!("{}x{}", n, nv));
+    let constant = s.data.iter().all(|r| r == &s.data[0]);
+    if g.nonuniform() && !constant {
+        let mut h = g.hash(hash_str("mesh1d") ^ hash_str(&ty));
+        for r in &s.data { for v in r { h = hmix(h, *v as u64); } }
+        st.nontrivial(hmix(h, ops.len() as u64));
+    }
+    st.sample(|| format!("Mesh1D<{}> grid={} nvars={} final model={:?}", ty, g.show(), nv, s.data));
+}
+
+// ------------------------------------------------------------------------------------------------
+// 1-D numerical half (f64)
+// ------------------------------------------------------------------------------------------------
+fn rabs(r: Rat) -> Rat { r.abs_r() }
+
+/// exact piecewise-linear interpolant at xr (None when outside the grid)
+fn interp_exact(g: &Grid, data: &[Vec<i64>], xr: Rat) -> Option<(usize, Vec<Rat>)> {
+    let n = g.n();
+    if xr < g.r(0) || xr > g.r(n - 1) { return None; }
+    let mut k = 0;
+    while k + 2 < n && g.r(k + 1) <= xr { k += 1; }
+    let h = g.r(k + 1) - g.r(k);
+    let t = (xr - g.r(k)) / h;
+    let vals = (0..data[k].len()).map(|v| Rat::int(data[k][v]) + Rat::int(data[k + 1][v] - data[k][v]) * t).collect();
+    Some((k, vals))
+}
+
+fn judge_interp(st: &mut Stats, m: &Mesh1D<f64, f64>, g: &Grid, data: &[Vec<i64>], x: f64, class: &str) {
+    let n = g.n();
+    let nv = data[0].len();
+    // quantifier certificate: x inside the grid and either exactly at a node or >= 1e-6 from every node
+    let pre = catch(|| {
+        let xr = Rat::from_f64(x);
+        let lim = Rat::new(1, 1_000_000);
+        let mut at_node = None;
+        for i in 0..n {
+            let d = rabs(xr - g.r(i));
+            if d.is_zero() { at_node = Some(i); } else if d < lim { return None; }
+        }
+        interp_exact(g, data, xr).map(|(k, v)| (k, v, at_node))
+    });
+    let (k, exact, at_node) = match pre {
+        Outcome::Ok(Some(t)) => t,
+        Outcome::Ok(None) => { st.count("skipped:interp-point-outside-quantifier"); return; }
+        _ => { st.count("skipped:rat-overflow-in-model"); return; }
+    };
+    let site = format!("interp1d.{}", class);
+    let desc = || format!("get_interpolated_vars({:e} = {:?}) grid={} model={:?} cell={}", x, Rat::from_f64(x), g.show(), data, k);
+    let got = match call(st, &site, "f64", &desc, || m.get_interpolated_vars(x).vec) { Some(v) => v, None => return };
+    st.eval();
+    if got.len() != nv || got.iter().any(|v| !v.is_finite()) {
+        wrong(st, &site, "f64", format!("returned {:?} (length/non-finite); {}", got, desc()));
+        return;
+    }
+    for v in 0..nv {
+        let scale = (data[k][v].abs() + data[k + 1][v].abs()) as f64;
+        let err = match catch(|| rabs(Rat::from_f64(got[v]) - exact[v])) { Outcome::Ok(e) => e, _ => { st.count("skipped:rat-overflow-in-model"); continue; } };
+        let bad = if scale == 0.0 { !err.is_zero() } else {
+            let ratio = err.to_f64() / (U * scale);
+            st.max(&format!("interp:{}:max_err_over_u_scale", class), ratio);
+            !(ratio <= INTERP_TOL_U)
+        };
+        if bad {
+            wrong(st, &site, "f64", format!("var {}: got {:e}, exact interpolant {:?} (= {:e}), |err| = {:e}; {}", v, got[v], exact[v], exact[v].to_f64(), err.to_f64(), desc()));
+            return;
+        }
+        if let Some(i) = at_node {
+            // At a node the demanded value is the stored datum itself (an integer, hence representable):
+            // "reproduces nodal values at the nodes" is read as bit equality. Deviations that are only
+            // rounding-sized (they passed the tolerance above) get their own narrow signatures.
+            if got[v] != data[i][v] as f64 {
+                st.count("observed:node-value-not-bit-exact");
+                let mode = if i == n - 1 { "last-node-not-bit-exact" } else { "node-not-bit-exact" };
+                st.set_insert("observed:node-not-bit-exact:which", mode.into());
+                if NODE_BIT_EXACT_IS_VIOLATION {
+                    st.violation(&format!("C19:interp1d.node:f64:{}", mode),
+                        format!("var {}: get_interpolated_vars at node {} (x = {:e}) returned {:e} but the stored nodal value is {} (cell used by model: left={} right={}, |err| = {:e}); {}",
+                            v, i, x, got[v], data[i][v], data[k][v], data[k + 1][v], err.to_f64(), desc()));
+                    return;
+                }
+            } else { st.count("observed:node-value-bit-exact"); }
+        }
+    }
+}
+
+/// certificate helper: Σ|terms| in quanta must stay below 2^53 for the f64 evaluation to be exact in any order
+const EXACT_LIMIT: u128 = 1u128 << 53;
+
+fn judge_quad(st: &mut Stats, site: &str, got: f64, exact: Rat, abs_sum_quanta: u128, abs_sum: Rat, desc: &dyn Fn() -> String) {
+    if !got.is_finite() { wrong(st, site, "f64", format!("returned {:e}; {}", got, desc())); return; }
+    let certified = abs_sum_quanta < EXACT_LIMIT;
+    if certified {
+        st.count(&format!("quad:{}:certified-exact", site));
+        let ok = matches!(catch(|| Rat::from_f64(got) == exact), Outcome::Ok(true));
+        if !ok {
+            wrong(st, site, "f64", format!("got {:e} (= {:?}) but the exactly representable value is {:?} (= {:e}); {}", got, catch(|| Rat::from_f64(got)).ok(), exact, exact.to_f64(), desc()));
+        }
+    } else {
+        st.count(&format!("quad:{}:tolerance-judged", site));
+        match catch(|| rabs(Rat::from_f64(got) - exact)) {
+            Outcome::Ok(e) => {
+                let sc = abs_sum.to_f64();
+                let bad = if sc == 0.0 { !e.is_zero() } else {
+                    let ratio = e.to_f64() / (U * sc);
+                    st.max(&format!("quad:{}:max_err_over_u_abssum", site), ratio);
+                    !(ratio <= QUAD_TOL_U)
+                };
+                if bad { wrong(st, site, "f64", format!("got {:e}, exact {:?} (= {:e}), |err| = {:e}; {}", got, exact, exact.to_f64(), e.to_f64(), desc())); }
+            }
+            _ => st.count("skipped:rat-overflow-in-model"),
+        }
+    }
+}
+
+/// exact 1-D trapezium: (value, Σ|term| in quanta of 2^-(s+1), Σ|term|)
+fn trap1_exact(g: &Grid, data: &[Vec<i64>], var: usize) -> (Rat, u128, Rat) {
+    let q = Rat::new(1, 1i128 << (g.s + 1));
+    let (mut sum, mut quanta) = (0i128, 0u128);
+    for i in 0..g.n() - 1 {
+        let dx = (g.k[i + 1] - g.k[i]) as i128;
+        sum += dx * (data[i][var] as i128 + data[i + 1][var] as i128);
+        quanta += (dx as u128) * (data[i][var].unsigned_abs() as u128 + data[i + 1][var].unsigned_abs() as u128);
+    }
+    (Rat::new(sum, 1) * q, quanta, Rat::new(quanta as i128, 1) * q)
+}
+
+fn judge_trap1(st: &mut Stats, m: &Mesh1D<f64, f64>, g: &Grid, s: &State1, site: &str) {
+    let nv = s.data[0].len();
+    for var in 0..nv {
+        let model = catch(|| {
+            let t = trap1_exact(g, &s.data, var);
+            // analytic integral of a + b*2^s*x over [x0, xn]
+            let ana = s.lin[var].map(|[a, b]| {
+                let (x0, x1) = (g.r(0), g.r(g.n() - 1));
+                Rat::int(a) * (x1 - x0) + Rat::int(b) * Rat::new(1i128 << g.s, 2) * (x1 * x1 - x0 * x0)
+            });
+            (t, ana)
+        });
+        let ((exact, quanta, abs_sum), ana) = match model { Outcome::Ok(t) => t, _ => { st.count("skipped:rat-overflow-in-model"); continue; } };
+        if let Some(a) = ana {
+            st.count("quad:trapezium1d:linear-data");
+            if a != exact { st.harness_errors.push(format!("C19 model self-check failed: analytic {:?} vs cell sum {:?} grid {}", a, exact, g.show())); }
+        }
+        let desc = || format!("Mesh1D<f64,f64>.trapezium({}) grid={} model={:?} linear={:?}", var, g.show(), s.data, s.lin[var]);
+        if let Some(got) = call(st, site, "f64", &desc, || m.trapezium(var)) {
+            st.eval();
+            judge_quad(st, site, got, exact, quanta, abs_sum, &desc);
+        }
+    }
+}
+
+fn numeric1(st: &mut Stats, rng: &mut Rng, m: &Mesh1D<f64, f64>, g: &Grid, s: &State1, exhaustive_points: bool) {
+    let n = g.n();
+    judge_trap1(st, m, g, s, "trapezium1d");
+    // interpolation points
+    let mut pts: Vec<(f64, &'static str)> = vec![];
+    if exhaustive_points {
+        for i in 0..n { pts.push((g.f(i), "node")); }
+        for i in 0..n - 1 { pts.push((0.5 * (g.f(i) + g.f(i + 1)), "mid")); }
+    } else {
+        pts.push((g.f(0), "node"));
+        pts.push((g.f(n - 1), "node"));
+        for _ in 0..3 { pts.push((g.f(rng.usize(0, n - 1)), "node")); }
+        for _ in 0..3 { let i = rng.usize(0, n - 2); pts.push((0.5 * (g.f(i) + g.f(i + 1)), "mid")); }
+    }
+    for _ in 0..4 {
+        let i = rng.usize(0, n - 2);
+        let t = rng.range(0.002, 0.998); // spacing >= 2^-9 => >= 3.9e-6 from both ends
+        pts.push((g.f(i) + t * (g.f(i + 1) - g.f(i)), "interior"));
+    }
+    for _ in 0..4 {
+        // just outside the quantifier's excluded window: 1.001e-6 .. 1e-5 from a node
+        let i = rng.usize(0, n - 1);
+        let d = rng.range(1.001e-6, 1.0e-5);
+        let x = if i == 0 || (i < n - 1 && rng.bool()) { g.f(i) + d } else { g.f(i) - d };
+        pts.push((x, "near-node"));
+    }
+    for (x, class) in pts { judge_interp(st, m, g, &s.data, x, class); }
+}
+
+/// output(file, p) then read(file) into a mesh with the same nvars but unrelated nodes/data
+fn judge_file(st: &mut Stats, rng: &mut Rng, workdir: &str, seed: u64, m: &Mesh1D<f64, f64>, g: &Grid, s: &State1, p: usize) {
+    let n = g.n();
+    let nv = s.data[0].len();
+    let case = st.next_case();
+    let fname = format!("{}/c19_p{}_s{}_u{}_c{}.dat", workdir, std::process::id(), seed, st.unit, case);
+    let desc = || format!("output(precision {}) / read: grid={} nvars={} model={:?} file={}", p, g.show(), nv, s.data, fname);
+    if call(st, "output1d", "f64", &desc, || m.output(&fname, p)).is_none() { let _ = std::fs::remove_file(&fname); return; }
+    st.eval();
+    // destination: different node count and garbage contents
+    let n2 = rng.usize(2, 12);
+    let g2 = gen_grid(rng, n2);
+    let mut dst = Mesh1D::<f64, f64>::new(Vector::create(g2.fvec()), nv);
+    for i in 0..n2 { for v in 0..nv { dst[i][v] = 777.0 + (i * 4 + v) as f64; } }
+    let r = call(st, "read1d", "f64", &desc, || dst.read(&fname));
+    let _ = std::fs::remove_file(&fname);
+    if r.is_none() { return; }
+    st.eval();
+    st.count(&format!("file:roundtrip:n2{}n", if n2 < n { "<" } else if n2 == n { "=" } else { ">" }));
+    st.set_insert("file:precisions", format!("{}", p));
+    let got = call(st, "read1d", "f64", &desc, || {
+        let nn = dst.nnodes();
+        (nn, dst.nvars(), dst.nodes().vec, (0..nn).map(|i| dst.get_nodes_vars(i).vec).collect::<Vec<Vec<f64>>>())
+    });
+    let (nn, nvv, nodes, rows) = match got { Some(t) => t, None => return };
+    if nn != n || nvv != nv || nodes.len() != n || rows.len() != n || rows.iter().any(|r| r.len() != nv) {
+        wrong(st, "read1d.shape", "f64", format!("after read: nnodes={} nvars={} nodes.len={} rows={:?}; expected {} nodes x {} vars; {}", nn, nvv, nodes.len(), rows.iter().map(|r| r.len()).collect::<Vec<_>>(), n, nv, desc()));
+        return;
+    }
+    // |read - written| <= 1/2*10^-p + |written|*2^-52, judged exactly over Rat
+    let half = Rat::new(1, 2 * 10i128.pow(p as u32));
+    let judge = |st: &mut Stats, what: &str, gotv: f64, want: Rat| -> bool {
+        if !gotv.is_finite() { wrong(st, what, "f64", format!("read back {:e} for written {:?}; {}", gotv, want, desc())); return false; }
+        let r = catch(|| {
+            let e = rabs(Rat::from_f64(gotv) - want);
+            let tol = half + rabs(want) * Rat::new(1, 1i128 << FILE_REL_SLACK_LOG2);
+            (e <= tol, e.to_f64() / half.to_f64())
+        });
+        match r {
+            Outcome::Ok((ok, ratio)) => {
+                st.max("file:max_err_over_half_unit_of_last_place", ratio);
+                if !ok { wrong(st, what, "f64", format!("read back {:e} for written {:?} (= {:e}), precision {}; {}", gotv, want, want.to_f64(), p, desc())); }
+                ok
+            }
+            _ => { st.count("skipped:rat-overflow-in-model"); true }
+        }
+    };
+    for i in 0..n {
+        if !judge(st, "read1d.nodes", nodes[i], g.r(i)) { return; }
+        for v in 0..nv { if !judge(st, "read1d.vars", rows[i][v], Rat::int(s.data[i][v])) { return; } }
+    }
+}
+
+// ------------------------------------------------------------------------------------------------
+// 2-D storage half
+// ------------------------------------------------------------------------------------------------
+#[derive(Clone, Debug)]
+enum Op2 {
+    Set { i: usize, j: usize, vals: Vec<i64> },
+    IdxVec { i: usize, j: usize, vals: Vec<i64> },
+    IdxComp { i: usize, j: usize, var: usize, val: i64 },
+    /// apply(f, var): kind 0 bilinear c0 + c1*X + c2*Y + c3*X*Y ; kind 1 non-linear polynomial hash of (X,Y)
+    Apply { var: usize, kind: u8, c: [i64; 4] },
+    Assign { c: i64 },
+    /// unique code at every node through write path 0 set, 1 index-vector, 2 index-component
+    FillCodes { path: u8, base: i64 },
+}
+
+pub struct State2 {
+    pub data: Vec<Vec<Vec<i64>>>, // [i][j][var]
+    /// Some(c) when var is currently c0 + c1*X + c2*Y + c3*X*Y everywhere
+    pub bil: Vec<Option<[i64; 4]>>,
+    pub hist: Vec<String>,
+}
+
+fn apply_fn(kind: u8, c: [i64; 4], x: i64, y: i64) -> i64 {
+    if kind == 0 { c[0] + c[1] * x + c[2] * y + c[3] * x * y }
+    else { (c[0] + c[1] * x * x - 3 * x * y * c[2] + y * y * y + c[3] * y).rem_euclid(100_003) - 50_000 }
+}
+
+fn write2<T: Elem>(st: &mut Stats, m: &mut Mesh2D<T>, path: u8, i: usize, j: usize, vals: &[i64], desc: &dyn Fn() -> String) {
+    let v: Vec<T> = vals.iter().map(|x| T::of(*x)).collect();
+    match path {
+        0 => { call(st, "mesh2d.set_nodes_vars", T::NAME, desc, || m.set_nodes_vars(i, j, Vector::create(v))); }
+        1 => { call(st, "mesh2d.index_mut", T::NAME, desc, || { m[(i, j)] = Vector::create(v); }); }
+        _ => { call(st, "mesh2d.index_mut", T::NAME, desc, || { for (q, x) in v.iter().enumerate() { m[(i, j)][q] = *x; } }); }
+    }
+    st.eval();
+}
+
+fn check2<T: Elem>(st: &mut Stats, m: &Mesh2D<T>, gx: &Grid, gy: &Grid, nv: usize, s: &State2) {
+    let (nx, ny) = (gx.n(), gy.n());
+    let ty = T::NAME;
+    let desc = || format!("Mesh2D<{}> xgrid={} ygrid={} nvars={} history={:?} model[i][j][var]={:?}", ty, gx.show(), gy.show(), nv, s.hist, s.data);
+    match call(st, "mesh2d.nnodes", ty, &desc, || (m.nnodes(), m.nvars())) {
+        Some((nn, nvv)) => {
+            st.eval();
+            if nn != (nx, ny) || nvv != nv { wrong(st, "mesh2d.nnodes", ty, format!("nnodes/nvars = {:?}/{} expected {:?}/{}; {}", nn, nvv, (nx, ny), nv, desc())); return; }
+        }
+        None => return,
+    }
+    // per-node get
+    if let Some(rows) = call(st, "mesh2d.get_nodes_vars", ty, &desc, || {
+        let mut out = Vec::with_capacity(nx * ny);
+        for i in 0..nx { for j in 0..ny { out.push(m.get_nodes_vars(i, j).vec); } }
+        out
+    }) {
+        st.evals_add((nx * ny) as u64);
+        'a: for i in 0..nx { for j in 0..ny {
+            if !row_eq(&rows[i * ny + j], &s.data[i][j]) {
+                wrong(st, "mesh2d.get_nodes_vars", ty, format!("get_nodes_vars({},{}) = {:?}, stored {:?}; {}", i, j, rows[i * ny + j], s.data[i][j], desc()));
+                break 'a;
+            }
+        } }
+    }
+    // index
+    if let Some(rows) = call(st, "mesh2d.index", ty, &desc, || {
+        let mut out = Vec::with_capacity(nx * ny);
+        for i in 0..nx { for j in 0..ny { out.push(m[(i, j)].vec.clone()); } }
+        out
+    }) {
+        st.evals_add((nx * ny) as u64);
+        'b: for i in 0..nx { for j in 0..ny {
+            if !row_eq(&rows[i * ny + j], &s.data[i][j]) {
+                wrong(st, "mesh2d.index", ty, format!("mesh[({},{})] = {:?}, stored {:?}; {}", i, j, rows[i * ny + j], s.data[i][j], desc()));
+                break 'b;
+            }
+        } }
+    }
+    // cross sections at every x node: a 1-D mesh over the y nodes
+    let (xs, ys) = (gx.fvec(), gy.fvec());
+    for i in 0..nx {
+        let sec = call(st, "mesh2d.cross_section_xnode", ty, &desc, || {
+            let c = m.cross_section_xnode(i);
+            let nn = c.nnodes();
+            (nn, c.nvars(), c.nodes().vec, (0..nn).map(|j| c.get_nodes_vars(j).vec).collect::<Vec<Vec<T>>>(), (0..nn).map(|j| c[j].vec.clone()).collect::<Vec<Vec<T>>>())
+        });
+        st.eval();
+        if let Some((nn, nvv, nodes, rows, rows2)) = sec {
+            let ok = nn == ny && nvv == nv && nodes == ys && (0..ny).all(|j| row_eq(&rows[j], &s.data[i][j]) && row_eq(&rows2[j], &s.data[i][j]));
+            if !ok {
+                wrong(st, "mesh2d.cross_section_xnode", ty, format!("cross_section_xnode({}): nnodes={} nvars={} nodes={:?} vars={:?}; expected nodes {:?} vars {:?}; {}", i, nn, nvv, nodes, rows, ys, s.data[i], desc()));
+                break;
+            }
+        } else { break; }
+    }
+    for j in 0..ny {
+        let sec = call(st, "mesh2d.cross_section_ynode", ty, &desc, || {
+            let c = m.cross_section_ynode(j);
+            let nn = c.nnodes();
+            (nn, c.nvars(), c.nodes().vec, (0..nn).map(|i| c.get_nodes_vars(i).vec).collect::<Vec<Vec<T>>>(), (0..nn).map(|i| c[i].vec.clone()).collect::<Vec<Vec<T>>>())
+        });
+        st.eval();
+        if let Some((nn, nvv, nodes, rows, rows2)) = sec {
+            let ok = nn == nx && nvv == nv && nodes == xs && (0..nx).all(|i| row_eq(&rows[i], &s.data[i][j]) && row_eq(&rows2[i], &s.data[i][j]));
+            if !ok {
+                let want: Vec<&Vec<i64>> = (0..nx).map(|i| &s.data[i][j]).collect();
+                wrong(st, "mesh2d.cross_section_ynode", ty, format!("cross_section_ynode({}): nnodes={} nvars={} nodes={:?} vars={:?}; expected nodes {:?} vars {:?}; {}", j, nn, nvv, nodes, rows, xs, want, desc()));
+                break;
+            }
+        } else { break; }
+    }
+    // variable as matrix
+    for var in 0..nv {
+        let mm = call(st, "mesh2d.var_as_matrix", ty, &desc, || {
+            let a = m.var_as_matrix(var);
+            let (r, c) = (a.rows(), a.cols());
+            let mut out = vec![];
+            if r == nx && c == ny { for i in 0..nx { for j in 0..ny { out.push(a[(i, j)]); } } }
+            (r, c, out)
+        });
+        st.eval();
+        if let Some((r, c, vals)) = mm {
+            let ok = r == nx && c == ny && (0..nx).all(|i| (0..ny).all(|j| vals[i * ny + j] == T::of(s.data[i][j][var])));
+            if !ok {
+                wrong(st, "mesh2d.var_as_matrix", ty, format!("var_as_matrix({}): {}x{} row-major entries {:?}; expected {}x{} with m[(i,j)] = model[i][j][{}]; {}", var, r, c, vals, nx, ny, var, desc()));
+                break;
+            }
+        } else { break; }
+    }
+    // coordinates
+    if let Some((cs, xn, yn)) = call(st, "mesh2d.coord", ty, &desc, || {
+        let mut cs = vec![];
+        for i in 0..nx { for j in 0..ny { cs.push(m.coord(i, j)); } }
+        (cs, m.xnodes().vec, m.ynodes().vec)
+    }) {
+        st.evals_add((nx * ny + 2) as u64);
+        let ok = (0..nx).all(|i| (0..ny).all(|j| cs[i * ny + j] == (xs[i], ys[j])));
+        if !ok { wrong(st, "mesh2d.coord", ty, format!("coord(i,j) row-major = {:?}; {}", cs, desc())); }
+        if xn != xs || yn != ys { wrong(st, "mesh2d.xnodes", ty, format!("xnodes() = {:?}, ynodes() = {:?}; {}", xn, yn, desc())); }
+    }
+}
+
+fn apply_op2<T: Elem>(st: &mut Stats, m: &mut Mesh2D<T>, gx: &Grid, gy: &Grid, nv: usize, s: &mut State2, op: &Op2) {
+    let (nx, ny) = (gx.n(), gy.n());
+    s.hist.push(format!("{:?}", op));
+    if s.hist.len() > 24 { s.hist.remove(0); }
+    let hist = s.hist.clone();
+    let (gxs, gys) = (gx.show(), gy.show());
+    let desc = move || format!("Mesh2D<{}> xgrid={} ygrid={} nvars={} history(last is the failing op)={:?}", T::NAME, gxs, gys, nv, hist);
+    match op {
+        Op2::Set { i, j, vals } => { write2(st, m, 0, *i, *j, vals, &desc); s.data[*i][*j] = vals.clone(); s.bil.iter_mut().for_each(|b| *b = None); }
+        Op2::IdxVec { i, j, vals } => { write2(st, m, 1, *i, *j, vals, &desc); s.data[*i][*j] = vals.clone(); s.bil.iter_mut().for_each(|b| *b = None); }
+        Op2::IdxComp { i, j, var, val } => {
+            let (i, j, var, val) = (*i, *j, *var, *val);
+            call(st, "mesh2d.index_mut", T::NAME, &desc, || { m[(i, j)][var] = T::of(val); });
+            st.eval();
+            s.data[i][j][var] = val;
+            s.bil[var] = None;
+        }
+        Op2::Apply { var, kind, c } => {
+            let (var, kind, c) = (*var, *kind, *c);
+            let (sx, sy) = ((1u64 << gx.s) as f64, (1u64 << gy.s) as f64);
+            // the callback recovers the integer grid coordinates from the f64 positions it is handed (exact)
+            let f = move |x: f64, y: f64| -> T { T::of(apply_fn(kind, c, (x * sx) as i64, (y * sy) as i64)) };
+            call(st, "mesh2d.apply", T::NAME, &desc, || m.apply(&f, var));
+            st.eval();
+            for i in 0..nx { for j in 0..ny { s.data[i][j][var] = apply_fn(kind, c, gx.k[i], gy.k[j]); } }
+            s.bil[var] = if kind == 0 { Some(c) } else { None };
+        }
+        Op2::Assign { c } => {
+            let c = *c;
+            call(st, "mesh2d.assign", T::NAME, &desc, || m.assign(T::of(c)));
+            st.eval();
+            for i in 0..nx { for j in 0..ny { for v in 0..nv { s.data[i][j][v] = c; } } }
+            s.bil.iter_mut().for_each(|b| *b = Some([c, 0, 0, 0]));
+        }
+        Op2::FillCodes { path, base } => {
+            for i in 0..nx { for j in 0..ny {
+                let vals: Vec<i64> = (0..nv).map(|v| base + ((i * 16 + j) * 4 + v) as i64).collect();
+                write2(st, m, *path, i, j, &vals, &desc);
+                s.data[i][j] = vals;
+            } }
+            s.bil.iter_mut().for_each(|b| *b = None);
+        }
+    }
+}
+
+fn random_ops2(rng: &mut Rng, nx: usize, ny: usize, nv: usize, nops: usize) -> Vec<Op2> {
+    let class = rng.below(4);
+    let mut ops = vec![];
+    if rng.chance(0.6) { ops.push(Op2::FillCodes { path: rng.below(3) as u8, base: rand_val(rng, class.min(2)) }); }
+    for _ in 0..nops {
+        let (i, j) = (rng.usize(0, nx - 1), rng.usize(0, ny - 1));
+        let c = if rng.chance(0.15) { rng.below(4) } else { class };
+        ops.push(match rng.below(12) {
+            0..=2 => Op2::Set { i, j, vals: (0..nv).map(|_| rand_val(rng, c)).collect() },
+            3..=5 => Op2::IdxVec { i, j, vals: (0..nv).map(|_| rand_val(rng, c)).collect() },
+            6..=8 => Op2::IdxComp { i, j, var: rng.usize(0, nv - 1), val: rand_val(rng, c) },
+            9 => Op2::Apply { var: rng.usize(0, nv - 1), kind: 0, c: [rng.int(-50, 50), rng.int(-9, 9), rng.int(-9, 9), rng.int(-3, 3)] },
+            10 => Op2::Apply { var: rng.usize(0, nv - 1), kind: 1, c: [rng.int(-50, 50), rng.int(-9, 9), rng.int(-9, 9), rng.int(-3, 3)] },
+            _ => Op2::Assign { c: rand_val(rng, c.min(2)) },
+        });
+    }
+    if rng.chance(0.4) {
+        ops.push(Op2::Apply { var: rng.usize(0, nv - 1), kind: 0, c: [rng.int(-50, 50), rng.int(-9, 9), rng.int(-9, 9), rng.nzint(3)] });
+    }
+    ops
+}
+
+fn enum_ops2(nv: usize) -> Vec<Op2> {
+    let mut ops = vec![
+        Op2::FillCodes { path: 0, base: 1000 },
+        Op2::FillCodes { path: 1, base: -5000 },
+        Op2::FillCodes { path: 2, base: 9000 },
+    ];
+    for var in 0..nv { ops.push(Op2::Apply { var, kind: 1, c: [17 + var as i64, 5, 7, 11] }); }
+    ops.push(Op2::Assign { c: -7 });
+    for var in 0..nv { ops.push(Op2::Apply { var, kind: 0, c: [3, -2 + var as i64, 5, 1] }); }
+    ops
+}
+
+fn history2<T: Elem>(
+    st: &mut Stats, rng: &mut Rng, class: &str, gx: &Grid, gy: &Grid, nv: usize, ops: &[Op2],
+    after: &mut dyn FnMut(&mut Stats, &mut Rng, &Mesh2D<T>, &State2),
+) {
+    st.next_case();
+    let (nx, ny) = (gx.n(), gy.n());
+    let (gxs, gys) = (gx.show(), gy.show());
+    let d0 = || format!("Mesh2D<{}>::new xgrid={} ygrid={} nvars={}", T::NAME, gxs, gys, nv);
+    let mut m = match call(st, "mesh2d.new", T::NAME, &d0, || Mesh2D::<T>::new(Vector::create(gx.fvec()), Vector::create(gy.fvec()), nv)) { Some(m) => m, None => return };
+    st.eval();
+    let mut s = State2 { data: vec![vec![vec![0; nv]; ny]; nx], bil: vec![Some([0, 0, 0, 0]); nv], hist: vec![] };
+    check2(st, &m, gx, gy, nv, &s);
+    for op in ops {
+        apply_op2(st, &mut m, gx, gy, nv, &mut s, op);
+        check2(st, &m, gx, gy, nv, &s);
+    }
+    after(st, rng, &m, &s);
+    st.count(&format!("cases:mesh2d:{}:{}", T::NAME, class));
+    st.set_insert("shapes2d", format!("{}x{}x{}", nx, ny, nv));
+    let constant = s.data.iter().all(|r| r.iter().all(|c| c == &s.data[0][0]));
+    if gx.nonuniform() && gy.nonuniform() && !constant {
+        let mut h = gy.hash(gx.hash(hash_str("mesh2d") ^ hash_str(T::NAME)));
+        for r in &s.data { for c in r { for v in c { h = hmix(h, *v as u64); } } }
+        st.nontrivial(hmix(h, ops.len() as u64));
+    }
+    st.sample(|| format!("Mesh2D<{}> xgrid={} ygrid={} nvars={} final model={:?}", T::NAME, gx.show(), gy.show(), nv, s.data));
+}
+
+// ------------------------------------------------------------------------------------------------
+// 2-D numerical half (f64)
+// ------------------------------------------------------------------------------------------------
+/// exact 2-D trapezium of var (square=false) or var^2 (square=true):
+/// (value, Σ|term| in quanta of 2^-(sx+sy+2), Σ|term|)
+fn trap2_exact(gx: &Grid, gy: &Grid, data: &[Vec<Vec<i64>>], var: usize, square: bool) -> (Rat, u128, Rat) {
+    let q = Rat::new(1, 1i128 << (gx.s + gy.s + 2));
+    let (mut sum, mut quanta) = (0i128, 0u128);
+    let f = |i: usize, j: usize| -> i128 { let v = data[i][j][var] as i128; if square { v * v } else { v } };
+    for i in 0..gx.n() - 1 {
+        let dx = (gx.k[i + 1] - gx.k[i]) as i128;
+        for j in 0..gy.n() - 1 {
+            let dy = (gy.k[j + 1] - gy.k[j]) as i128;
+            let c = [f(i, j), f(i + 1, j), f(i, j + 1), f(i + 1, j + 1)];
+            sum += dx * dy * (c[0] + c[1] + c[2] + c[3]);
+            quanta += (dx * dy) as u128 * (c[0].unsigned_abs() + c[1].unsigned_abs() + c[2].unsigned_abs() + c[3].unsigned_abs());
+        }
+    }
+    (Rat::new(sum, 1) * q, quanta, Rat::new(quanta as i128, 1) * q)
+}
+
+fn numeric2(st: &mut Stats, m: &Mesh2D<f64>, gx: &Grid, gy: &Grid, s: &State2) {
+    let nv = s.data[0][0].len();
+    for var in 0..nv {
+        for square in [false, true] {
+            let site = if square { "square_trapezium2d" } else { "trapezium2d" };
+            let model = catch(|| {
+                let t = trap2_exact(gx, gy, &s.data, var, square);
+                let ana = if square { None } else {
+                    s.bil[var].map(|c| {
+                        let (x0, x1, y0, y1) = (gx.r(0), gx.r(gx.n() - 1), gy.r(0), gy.r(gy.n() - 1));
+                        let (lx, ly) = (x1 - x0, y1 - y0);
+                        // ∫X dx with X = 2^sx x ;  ∫Y dy with Y = 2^sy y
+                        let ix = Rat::new(1i128 << gx.s, 2) * (x1 * x1 - x0 * x0);
+                        let iy = Rat::new(1i128 << gy.s, 2) * (y1 * y1 - y0 * y0);
+                        Rat::int(c[0]) * lx * ly + Rat::int(c[1]) * ix * ly + Rat::int(c[2]) * lx * iy + Rat::int(c[3]) * ix * iy
+                    })
+                };
+                (t, ana)
+            });
+            let ((exact, quanta, abs_sum), ana) = match model { Outcome::Ok(t) => t, _ => { st.count("skipped:rat-overflow-in-model"); continue; } };
+            if let Some(a) = ana {
+                st.count("quad:trapezium2d:bilinear-data");
+                if a != exact { st.harness_errors.push(format!("C19 model self-check failed: analytic {:?} vs cell sum {:?} xgrid {} ygrid {} bil {:?}", a, exact, gx.show(), gy.show(), s.bil[var])); }
+            }
+            let desc = || format!("Mesh2D<f64>.{}({}) xgrid={} ygrid={} model[i][j][var]={:?} bilinear={:?}", site, var, gx.show(), gy.show(), s.data, s.bil[var]);
+            let got = call(st, site, "f64", &desc, || if square { m.square_trapezium(var) } else { m.trapezium(var) });
+            st.eval();
+            if let Some(got) = got { judge_quad(st, site, got, exact, quanta, abs_sum, &desc); }
+        }
+    }
+}
+
+/// numerical routines on cross-sections of a 2-D f64 mesh (composition of the two halves)
+fn numeric2_sections(st: &mut Stats, rng: &mut Rng, m: &Mesh2D<f64>, gx: &Grid, gy: &Grid, s: &State2) {
+    let (nx, ny) = (gx.n(), gy.n());
+    let nv = s.data[0][0].len();
+    let i = rng.usize(0, nx - 1);
+    let j = rng.usize(0, ny - 1);
+    let d0 = || format!("cross_section of Mesh2D<f64> xgrid={} ygrid={} model={:?}", gx.show(), gy.show(), s.data);
+    if let Some(sec) = call(st, "mesh2d.cross_section_xnode", "f64", &d0, || m.cross_section_xnode(i)) {
+        let s1 = State1 { data: s.data[i].clone(), lin: vec![None; nv], hist: vec![format!("cross_section_xnode({})", i)] };
+        judge_trap1(st, &sec, gy, &s1, "trapezium1d.of-xsection");
+        let jj = rng.usize(0, ny - 2);
+        judge_interp(st, &sec, gy, &s1.data, 0.5 * (gy.f(jj) + gy.f(jj + 1)), "mid");
+        judge_interp(st, &sec, gy, &s1.data, gy.f(ny - 1), "node");
+    }
+    if let Some(sec) = call(st, "mesh2d.cross_section_ynode", "f64", &d0, || m.cross_section_ynode(j)) {
+        let s1 = State1 { data: (0..nx).map(|i| s.data[i][j].clone()).collect(), lin: vec![None; nv], hist: vec![format!("cross_section_ynode({})", j)] };
+        judge_trap1(st, &sec, gx, &s1, "trapezium1d.of-ysection");
+        let ii = rng.usize(0, nx - 2);
+        judge_interp(st, &sec, gx, &s1.data, 0.5 * (gx.f(ii) + gx.f(ii + 1)), "mid");
+        judge_interp(st, &sec, gx, &s1.data, gx.f(0), "node");
+    }
+}
+
+// ------------------------------------------------------------------------------------------------
+// driver
+// ------------------------------------------------------------------------------------------------
+pub fn run(ctx: &Ctx) -> Report {
+    // file round trips need a writable work directory; probe once (trouble here is never a verdict)
+    let _ = std::fs::create_dir_all(&ctx.workdir);
+    let probe = format!("{}/c19_probe_{}_{}.tmp", ctx.workdir, std::process::id(), ctx.seed);
+    let io_ok = std::fs::write(&probe, b"1 2\n").is_ok() && std::fs::read_to_string(&probe).is_ok();
+    let _ = std::fs::remove_file(&probe);
+
+    // enumerated work items (seed independent): every 1-D shape n in 2..12 x nvars 1..4, every 2-D shape
+    let mut shapes: Vec<(usize, usize, usize)> = vec![]; // (nx, ny or 0 for 1-D, nvars)
+    for n in 2..=12 { for nv in 1..=4 { shapes.push((n, 0, nv)); } }
+    for nx in 2..=12 { for ny in 2..=12 { for nv in 1..=4 { shapes.push((nx, ny, nv)); } } }
+    let ne = shapes.len() as u64;
+    let nrand = ctx.vol(20_000, 400_000);
+    let workdir = ctx.workdir.clone();
+    let seed = ctx.seed;
+
+    let stats = par_run(ctx, TAG, ne + nrand, |u, rng, st| {
+        if u < ne {
+            let (nx, ny, nv) = shapes[u as usize];
+            let mut er = Rng::new(mix(0xC19E, u)); // enumerated part: independent of the run seed
+            let er = &mut er;
+            if ny == 0 {
+                let g = gen_grid(er, nx);
+                let ops = enum_ops1();
+                history1::<Rat, f64>(st, er, "enumerated", &g, nv, &ops, &mut |_, _, _, _| {});
+                history1::<Rat, Rat>(st, er, "enumerated", &g, nv, &ops, &mut |_, _, _, _| {});
+                let mut ops_f = ops.clone();
+                ops_f.push(Op1::FillLinear { var: nv - 1, a: 7, b: -3, path: 0 });
+                history1::<f64, f64>(st, er, "enumerated", &g, nv, &ops_f, &mut |st, r, m, s| {
+                    numeric1(st, r, m, &g, s, true);
+                    if io_ok { judge_file(st, r, &workdir, seed, m, &g, s, (nx * 4 + nv) % 14); }
+                });
+            } else {
+                let gx = gen_grid(er, nx);
+                let gy = gen_grid(er, ny);
+                let ops = enum_ops2(nv);
+                history2::<Rat>(st, er, "enumerated", &gx, &gy, nv, &ops, &mut |_, _, _, _| {});
+                history2::<f64>(st, er, "enumerated", &gx, &gy, nv, &ops, &mut |st, r, m, s| {
+                    numeric2(st, m, &gx, &gy, s);
+                    numeric2_sections(st, r, m, &gx, &gy, s);
+                });
+            }
+            return;
+        }
+        for _ in 0..10 {
+            let nv = rng.usize(1, 4);
+            match rng.below(10) {
+                0 | 1 => {
+                    let n = rng.usize(2, 12);
+                    let g = gen_grid(rng, n);
+                    let nops = rng.usize(0, 10); let ops = random_ops1(rng, n, nv, nops);
+                    if rng.bool() { history1::<Rat, f64>(st, rng, "random", &g, nv, &ops, &mut |_, _, _, _| {}); }
+                    else { history1::<Rat, Rat>(st, rng, "random", &g, nv, &ops, &mut |_, _, _, _| {}); }
+                }
+                2..=4 => {
+                    let n = rng.usize(2, 12);
+                    let g = gen_grid(rng, n);
+                    let nops = rng.usize(0, 10); let ops = random_ops1(rng, n, nv, nops);
+                    let p = if rng.chance(0.3) { rng.usize(0, 3) } else { rng.usize(0, 17) };
+                    let do_file = io_ok && rng.chance(0.5);
+                    history1::<f64, f64>(st, rng, "random", &g, nv, &ops, &mut |st, r, m, s| {
+                        numeric1(st, r, m, &g, s, false);
+                        if do_file { judge_file(st, r, &workdir, seed, m, &g, s, p); }
+                    });
+                }
+                5 | 6 => {
+                    let (nx, ny) = (rng.usize(2, 12), rng.usize(2, 12));
+                    let (gx, gy) = (gen_grid(rng, nx), gen_grid(rng, ny));
+                    let nops = rng.usize(0, 8); let ops = random_ops2(rng, nx, ny, nv, nops);
+                    history2::<Rat>(st, rng, "random", &gx, &gy, nv, &ops, &mut |_, _, _, _| {});
+                }
+                _ => {
+                    let (nx, ny) = (rng.usize(2, 12), rng.usize(2, 12));
+                    let (gx, gy) = (gen_grid(rng, nx), gen_grid(rng, ny));
+                    let nops = rng.usize(0, 8); let ops = random_ops2(rng, nx, ny, nv, nops);
+                    history2::<f64>(st, rng, "random", &gx, &gy, nv, &ops, &mut |st, r, m, s| {
+                        numeric2(st, m, &gx, &gy, s);
+                        numeric2_sections(st, r, m, &gx, &gy, s);
+                    });
+                }
+            }
+        }
+    });
+
+    let mut rep = Report::new(stats,
+        "meshes on dyadic non-uniform grids (positions k/2^s, s<=9, steps from 4 classes incl. ratios up to 256:1, offsets in [-1024,1024]/2^s), 2..12 nodes per direction, 1..4 variables, integer nodal data (4 magnitude classes up to 2^30). \
+         Enumerated (seed-independent) units: EVERY 1-D shape (n,nvars) and EVERY 2-D shape (nx,ny,nvars): every (node,var) written with a unique code through every write path and read back through every read path, for T in {f64,Rat} (1-D also X in {f64,Rat}); f64: interpolation at all nodes and mid-cells, trapezium/square_trapezium, one file round trip per 1-D shape. \
+         Random units: 10 meshes each with a random write history (set_nodes_vars / IndexMut vector / IndexMut component / apply bilinear+nonlinear / assign / linear fill), ALL read paths compared with the model after every step; then the numerical routines on the final state (interpolation at nodes, mid-cells, random interior points, points 1.001e-6..1e-5 from a node; quadrature vs exact Rat cell sum, cross-checked with the analytic integral when the data are (bi)linear; file round trip at precision 0..17 into a mesh with different node count and garbage contents). \
+         A mesh is non-trivial when every direction has >=3 nodes with >=2 distinct spacings and the final nodal data are not constant; distinct = hash(kind, types, grids, final data, #ops)");
+    rep.assumptions = vec![
+        "interpolation is only judged at points exactly on a node or >= 1e-6 (checked over Rat) from every node, inside the grid; behaviour outside the grid and inside the 1e-7 snapping window is not judged".into(),
+        format!("interpolation tolerance |err| <= {}*u*(|left|+|right|) (a priori rounding bound ~4u); exactly AT a node bit equality with the stored (integer) nodal value is demanded in addition (signatures *:last-node-not-bit-exact / *:node-not-bit-exact)", INTERP_TOL_U),
+        format!("quadrature: BIT equality with the exact rational value whenever the generator certificate (sum of |cell terms| < 2^53 quanta, so every f64 operation in any order is exact) holds; otherwise |err| <= {}*u*sum|terms|", QUAD_TOL_U),
+        "file round trip: |read - written| <= 1/2*10^-p + |written|*2^-52 judged over Rat; read() is called on a mesh with the same nvars (its documented requirement); files live under ctx.workdir and are deleted after reading".into(),
+        "Rat overflow in model or library => case skipped (counted), never judged; unwritable workdir => file part skipped and the run is marked inconclusive".into(),
+    ];
+    rep.min_nontrivial = if ctx.quick() { 20_000 } else { 400_000 };
+    if !io_ok { rep.inconclusive.push(format!("workdir {} not writable: file round trips skipped", ctx.workdir)); }
+    let mut ex = J::obj();
+    ex.set("exhaustive_parts", J::Arr(vec![
+        J::s("all 44 1-D shapes (n 2..12 x nvars 1..4) x {f64/f64, Rat/f64, Rat/Rat}: every (node,var) x 3 write paths x all read paths"),
+        J::s("all 484 2-D shapes (nx,ny 2..12 x nvars 1..4) x {f64, Rat}: every (i,j,var) x 3 write paths + apply per var + assign x all read paths (get, index, every x/y cross-section, var_as_matrix per var, coord)"),
+        J::s("f64: interpolation at every node and every mid-cell of every enumerated 1-D shape; trapezium/square_trapezium of every var of every enumerated 2-D shape"),
+    ]));
+    ex.set("enumerated_units", J::UInt(ne));
+    ex.set("random_units", J::UInt(nrand));
+    rep.extra = ex;
+    rep
 }
